@@ -431,7 +431,7 @@ func c15Explore(c *fw.Ctx, prog string, bound int) {
 		c.HarnessError("C15 %s: %s", prog, d)
 	}
 	if st.Deadlines > 0 {
-		c.HarnessError("C15 %s: %d executions hit the watchdog", prog, st.Deadlines)
+		c.HarnessError("C15 %s: %d executions hit the watchdog (first at schedule %v)", prog, st.Deadlines, st.DeadlineAt)
 	}
 	if st.Nondeterministic {
 		c.HarnessError("C15: replaying the default schedule gave a different execution (uncaptured nondeterminism)")
